@@ -115,9 +115,56 @@ func genInit(r *hv.Rand, keyed bool) initv {
 
 func sig(s string) string { return "C13:" + s }
 
+// prelife, when set, gives the two objects of the next case an earlier life before they are
+// (re-)initialised: Initialize / InitializeEmpty are documented to RESET an object, so a used object
+// must behave exactly like a fresh one afterwards (the hidden-mode server re-initialises one duplex
+// per candidate certificate, right after an absorb or a decrypt).
+var prelife func(c *cyclist.Cyclist)
+
+// usedObject returns a prelife: a keyed or hash-mode life of a few calls that ends with `last`.
+func usedObject(r *hv.Rand, last string) func(c *cyclist.Cyclist) {
+	keyed := last == "E" || last == "D" || last == "Sk" || last == "Ra" || r.Chance(60)
+	key := r.Bytes(32)
+	data := r.Bytes(hv.Pick(r, []int{0, 1, 16, 43, 44, 45, 136, 200}))
+	n := hv.Pick(r, []int{0, 1, 16, 32, 136})
+	pre := r.Intn(3)
+	return func(c *cyclist.Cyclist) {
+		hv.Catch(func() {
+			if keyed {
+				c.Initialize(key, nil, nil)
+			} else {
+				c.InitializeEmpty()
+			}
+			for i := 0; i < pre; i++ {
+				c.Absorb(data)
+				c.Squeeze(make([]byte, 16))
+			}
+			switch last {
+			case "A":
+				c.Absorb(data)
+			case "E":
+				c.Encrypt(make([]byte, len(data)), data)
+			case "D":
+				c.Decrypt(make([]byte, len(data)), data)
+			case "Sq":
+				c.Squeeze(make([]byte, n))
+			case "Sk":
+				c.SqueezeKey(make([]byte, n))
+			case "Ra":
+				c.Ratchet()
+			}
+		})
+	}
+}
+
 // runCase runs one program on the real object and emits the case.
 func runCase(class string, iv initv, ops []op) {
 	var a, b cyclist.Cyclist
+	if prelife != nil {
+		prelife(&a)
+		prelife(&b)
+		prelife = nil
+	}
 	var outs []string
 	specOK, sg, what := true, "", ""
 	fail := func(s, w string) {
@@ -356,6 +403,11 @@ func generate() {
 		class := "hash-program"
 		if keyed {
 			class = "keyed-program"
+		}
+		if r.Chance(35) {
+			last := hv.Pick(r, []string{"A", "E", "D", "Ra", "Sq", "Sk", "A", "D"})
+			prelife = usedObject(r, last)
+			class += "-reused-object-after-" + last
 		}
 		runCase(class, genInit(r, keyed), genProgram(r, keyed, 12))
 	}
